@@ -44,6 +44,7 @@ def setup(ctx):
     ]
     ctx.require("monitor", "connections_with_proxy_handler", 300)
     ctx.require("monitor", "wired_connections", 8)
+    ctx.require("monitor", "cert_twin_connections", 48)
     ctx.require("monitor", "connections", 500)
     ctx.require("monitor", "mw_calls_observed", 500)
     ctx.require("monitor", "rejected_connections", 150)
@@ -475,6 +476,69 @@ def run_wired(ctx, base):
             close_loop(loop)
 
 
+def run_cert_twins(ctx):
+    """Certificate rules across connections of one server process: a listed certificate, then certificates that
+    merely resemble it (same subject / issuer / serial number with another key; same key material is never shared),
+    then the listed one again.  Who may pass is decided by the certificate presented on THIS connection: a
+    look-alike is refused and no handler runs for it, whatever an earlier connection presented.  L1 and both TLS layers."""
+    from nauyaca.server.middleware import CertificateAuth, CertificateAuthConfig, CertificateAuthPathRule, MiddlewareChain
+    from nauyaca.server.protocol import GeminiServerProtocol
+
+    from vf import tlsbench
+
+    alice = certs.identity("c04-alice", "ec", cn="alice", serial=424242)
+    twin = certs.identity("c04-alice-twin", "ec", cn="alice", serial=424242)  # other key, same names and serial
+    twin_rsa = certs.identity("c04-alice-twin-rsa", "rsa", cn="alice", serial=424242)
+    other = certs.identity("c04-bob", "ec", cn="bob", serial=7)
+    order = [("listed", alice), ("look-alike", twin), ("listed", alice), ("look-alike", twin_rsa), ("unlisted", other), ("none", None), ("look-alike", twin), ("listed", alice)]
+    reqs = {"gemini": b"gemini://example.org/members/page\r\n", "titan": b"titan://example.org/members/up.txt;size=3;mime=text/plain\r\nabc", "titan-delete": b"titan://example.org/members/up.txt;size=0\r\n"}
+    for level in ("L1", "L2:pyopenssl"):
+        for kind, req in reqs.items():
+            loop = new_loop()
+            try:
+                log = []
+                chain = MiddlewareChain([CertificateAuth(CertificateAuthConfig(path_rules=[CertificateAuthPathRule(prefix="/members/", require_cert=True, allowed_fingerprints={certs.fingerprint(alice.der)})]))])
+                h = SpyHandler({"mode": "sync", "outcome": "value", "status": 20, "meta": "text/gemini", "body": "members only\n"}, log, loop)
+                up = SpyUpload({"outcome": "value", "status": 20, "meta": "text/gemini", "body": "stored\n"}, log, loop)
+                rows = []
+                for who, ident in order:
+                    n0 = len(h.calls) + len(up.calls)
+                    if level == "L1":
+                        sim = ServerSim(lambda: GeminiServerProtocol(h, chain, up), peername=PEER, peercert_der=ident.der if ident else None, loop=loop, log=log)
+                        sim.start()
+                        sim.feed(req)
+                        loop.run_until(loop.time() + 0.5)
+                        stream = bytes(sim.transport.written)
+                    else:
+                        bench = tlsbench.Sandwich(loop, lambda: GeminiServerProtocol(h, chain, up), backend="pyopenssl", log=log, client_identity=ident)
+                        if not bench.handshake():
+                            ctx.inconclusive_because(f"cert-twins: handshake failed: {bench.error}")
+                            break
+                        bench.client_send(req)
+                        bench.finish()
+                        stream = bytes(bench.client_plain)
+                    status = int(stream[:2]) if stream[:2].isdigit() else None
+                    ran = len(h.calls) + len(up.calls) - n0
+                    rows.append((who, status, ran))
+                    ctx.count("monitor", "connections")
+                    ctx.count("monitor", "cert_twin_connections")
+                    if kind != "gemini":
+                        ctx.count("monitor", "titan_connections")
+                    wit = {"level": level, "request": req, "rule": "/members/ requires the listed certificate (alice, serial 424242)", "presented": who, "presented_fingerprint": certs.fingerprint(ident.der) if ident else None,
+                           "listed_fingerprint": certs.fingerprint(alice.der), "connections_so_far": list(rows), "status": status, "handler_entries": ran}
+                    if who != "listed":
+                        ctx.count("monitor", "rejected_connections")
+                        if ran:
+                            ctx.violation(f"handler-after-deny:certificate-{who}:after-other-connections", f"a {who} certificate was presented; the rule refuses it, yet a handler ran (status {status})", wit)
+                        elif status not in (60, 61, 62):
+                            ctx.violation(f"refusal-not-sent:certificate-{who}", f"a {who} certificate must be answered 6x, got {status}", wit)
+                    elif status != 20 or ran != 1:
+                        ctx.violation("allowed-not-handled:listed-certificate", f"the listed certificate was answered {status} (handler entries {ran})", wit)
+                ctx.case(("cert-twins", level, kind, tuple(r[1] for r in rows)), True, sample={"level": level, "request": kind, "rows": rows})
+            finally:
+                close_loop(loop)
+
+
 def chains(ctx, rng):
     out = []
     # all single components, all ordered pairs of a reduced alphabet, sampled triples
@@ -504,6 +568,8 @@ def run(ctx):
             f.write("# private doc\n")
         if ctx.shard == 0 or ctx.nshards == 1:
             run_wired(ctx, base)
+        if ctx.mine(1) or ctx.nshards == 1:
+            run_cert_twins(ctx)
         k = 0
         all_chains = chains(ctx, rng)
         for ci, chain in enumerate(all_chains):
